@@ -148,3 +148,56 @@ func VerifC03Hist() {
 	}
 	rt.Reach("c03.done")
 }
+
+// VerifC03Close: closing clears the statistics of the whole window. Failures trip the breaker in one
+// bucket of a multi-bucket window, the probe succeeds (possibly in a later bucket of the same window),
+// then healthy completions follow: the breaker must stay closed.
+func VerifC03Close() {
+	strategy := Strategy(rt.Choice(3))
+	B := uint32(rt.Param("B"))
+	I := B * 500
+	retry := 1 + rt.U32n("retry", 8)
+	r := &Rule{Resource: "r", Strategy: strategy, RetryTimeoutMs: retry, MinRequestAmount: 1, StatIntervalMs: I,
+		StatSlidingWindowBucketCount: B, MaxAllowedRtMs: 10, ProbeNum: 0, Threshold: 0.5}
+	if strategy == ErrorCount {
+		r.Threshold = 2
+	}
+	t := uint64(2000000000000) + rt.U64n("t0", 9)
+	rt.SetClockMs(t)
+	cb, err := cbGenFuncMap[strategy](r, nil)
+	if err != nil || cb == nil {
+		rt.Assert(false, "the built-in generator builds a breaker for a valid rule")
+		return
+	}
+	stateChangeListeners = nil
+	boom := errors.New("boom")
+	bad := func() {
+		if strategy == SlowRequestRatio {
+			cb.OnRequestComplete(1000, nil)
+		} else {
+			cb.OnRequestComplete(0, boom)
+		}
+	}
+	bad()
+	bad()
+	if cb.CurrentState() != Open {
+		rt.Assert(false, "two failing completions trip the breaker of the harness rule")
+		return
+	}
+	t += uint64(retry) + rt.U64n("wait", 9) // the probe may fall into a later bucket of the same window
+	rt.SetClockMs(t)
+	ctx := base.NewEmptyEntryContext()
+	ctx.Resource = base.NewResourceWrapper("r", base.ResTypeCommon, base.Outbound)
+	ctx.SetEntry(base.NewSentinelEntry(ctx, ctx.Resource, nil))
+	if !cb.TryPass(ctx) {
+		rt.Assert(false, "after the retry timeout one probe is admitted")
+		return
+	}
+	cb.OnRequestComplete(0, nil)
+	rt.Reach("c03.closed")
+	rt.Assert(cb.CurrentState() == Closed, "a successful probe closes the breaker")
+	t += rt.U64n("later", 9)
+	rt.SetClockMs(t)
+	cb.OnRequestComplete(0, nil)
+	rt.Assert(cb.CurrentState() == Closed, "closing cleared the statistics of the whole window: a healthy completion afterwards does not re-open the breaker")
+}
